@@ -801,6 +801,13 @@ func (fr *Frame) execMapUpdate(t *ssa.MapUpdate, st *State) error {
 	vc.set(st, fam+".count", "(Array Int Int)", sStore(cn, m.C[0], sIte(was, sSel(cn, m.C[0]), iAdd(sSel(cn, m.C[0]), "1"))))
 	vc.set(st, fam+".has", hs, sStore(has, m.C[0], sStore(sSel(has, m.C[0]), k, "true")))
 	v := fr.val(t.Value)
+	if c, pkg := fr.mapInvOf(mu.Elem()); c != nil && fr.dry == 0 {
+		g, err := fr.chanInvTerm(c, pkg, v, mu.Elem(), st)
+		if err != nil {
+			return err
+		}
+		vc.oblige(st, "mapinv", c.Label, g, t.Pos(), c.Text)
+	}
 	for i, c := range comps(mu.Elem()) {
 		srt := "(Array Int (Array Int " + c.Sort + "))"
 		a := vc.get(st, fam+".val"+c.Suffix, srt)
@@ -845,11 +852,32 @@ func (fr *Frame) execLookup(t *ssa.Lookup, st *State) error {
 	if f := vc.typeFacts(out, mu.Elem()); f != "true" {
 		vc.assumeAlways(f)
 	}
+	if c, pkg := fr.mapInvOf(mu.Elem()); c != nil {
+		// the declared invariant of stored values holds of an entry that was found
+		g, err := fr.chanInvTerm(c, pkg, out, mu.Elem(), st)
+		if err != nil {
+			return err
+		}
+		vc.assume(st, sImp(present, g))
+		vc.assumed["map value invariant "+c.Label+": "+c.Text+" (assumed of every entry found by a lookup; checked only at the map stores of functions under contract)"] = true
+	}
 	if t.CommaOk {
 		out.C = append(out.C, present)
 	}
 	fr.vals[t] = out
 	return nil
+}
+
+// mapInvOf: the declared invariant of the values stored in maps with this (named) value type
+func (fr *Frame) mapInvOf(et types.Type) (*Clause, *types.Package) {
+	n := namedOf(et)
+	if n == nil || n.Obj().Pkg() == nil {
+		return nil, nil
+	}
+	if c, ok := fr.vc.eng.cs.MapInvs[n.Obj().Pkg().Path()+"::"+n.Obj().Name()]; ok {
+		return c, n.Obj().Pkg()
+	}
+	return nil, nil
 }
 
 // ---------------------------------------------------------------------
